@@ -36,6 +36,7 @@ type schedCase struct {
 	Choices  []int        `json:"choices"`
 	Single   bool         `json:"single"` // run only the path given by Choices
 	PauseUs  int          `json:"pause_us"`
+	Free     bool         `json:"free"` // the Runner does not block: every Run returns at once with its prescribed outcome (stress runs)
 }
 
 type schedRun struct {
@@ -78,6 +79,7 @@ type ctlRunner struct {
 	trace     [][]interface{}
 	cancelled bool
 	taskStage map[string]int // fallback identification by task name
+	free      []bool         // non-nil: free-running mode, free[i] = outcome of stage i
 }
 
 func newCtl() *ctlRunner {
@@ -109,6 +111,16 @@ func (r *ctlRunner) Run(t *task.Task) error {
 		r.trace = append(r.trace, []interface{}{"R", i, false})
 		r.mu.Unlock()
 		return errors.New("context canceled")
+	}
+	if r.free != nil {
+		ok := i >= 0 && i < len(r.free) && r.free[i]
+		r.returned[i] = true
+		r.trace = append(r.trace, []interface{}{"R", i, ok})
+		r.mu.Unlock()
+		if ok {
+			return nil
+		}
+		return errors.New("task failed")
 	}
 	ch := make(chan bool, 1)
 	r.inflight[i] = ch
@@ -224,6 +236,13 @@ func schedRunOnce(c *schedCase, choices []int) schedRun {
 	pause := time.Duration(c.PauseUs) * time.Microsecond
 	if c.PauseUs <= 0 {
 		pause = time.Millisecond
+	}
+	if c.Free {
+		r.free = make([]bool, n)
+		for i, s := range c.Stages {
+			r.free[i] = s.Ok
+		}
+		pause = 0 // busy polling: the loop visits stages as fast as it can while goroutines write their statuses
 	}
 	sd.VerifSetPause(pause)
 
